@@ -1,28 +1,213 @@
-"""cvc5 second opinion (CLI on SMT-LIB text)."""
+"""SMT back ends: z3 (in process) first, cvc5 (CLI, --strings-exp) takes z3's unknowns.
+
+DESIGN 2.6.  All queries carry a timeout; `unknown` is never mapped to sat or unsat.
+"""
+from __future__ import annotations
+
 import os
+import re
 import subprocess
 import tempfile
 import time
 
+import z3
+
+CVC5 = "/usr/bin/cvc5"
+STATS = {"z3": 0, "cvc5": 0, "z3_time": 0.0, "cvc5_time": 0.0, "unknown": 0}
+
+
+# ------------------------------------------------------------------ s-expressions
+
+
+def _tokenize(text):
+    i, n = 0, len(text)
+    while i < n:
+        ch = text[i]
+        if ch.isspace():
+            i += 1
+        elif ch in "()":
+            yield ch
+            i += 1
+        elif ch == '"':
+            j = i + 1
+            buf = []
+            while j < n:
+                if text[j] == '"':
+                    if j + 1 < n and text[j + 1] == '"':
+                        buf.append('"')
+                        j += 2
+                        continue
+                    break
+                buf.append(text[j])
+                j += 1
+            yield ("str", "".join(buf))
+            i = j + 1
+        elif ch == "|":
+            j = text.index("|", i + 1)
+            yield text[i : j + 1]
+            i = j + 1
+        else:
+            j = i
+            while j < n and not text[j].isspace() and text[j] not in "()":
+                j += 1
+            yield text[i:j]
+            i = j
+
+
+def parse_sexprs(text):
+    stack = [[]]
+    for tok in _tokenize(text):
+        if tok == "(":
+            stack.append([])
+        elif tok == ")":
+            top = stack.pop()
+            stack[-1].append(top)
+        else:
+            stack[-1].append(tok)
+    return stack[0]
+
+
+def _unescape(s):
+    def rep(m):
+        return chr(int(m.group(1) or m.group(2), 16))
+
+    return re.sub(r"\\u\{([0-9a-fA-F]+)\}|\\u([0-9a-fA-F]{4})", rep, s)
+
+
+def sexpr_py(e):
+    """SMT-LIB value -> JSON-able python value (same shapes as contract.term_py)"""
+    if isinstance(e, tuple) and e[0] == "str":
+        return _unescape(e[1])
+    if isinstance(e, str):
+        if e == "true":
+            return True
+        if e == "false":
+            return False
+        if e == "none":
+            return None
+        if re.fullmatch(r"-?\d+", e):
+            return int(e)
+        return {"$term": e}
+    if isinstance(e, list) and e:
+        h = e[0]
+        if h == "-" and len(e) == 2:
+            v = sexpr_py(e[1])
+            return -v if isinstance(v, int) else {"$term": str(e)}
+        if h in ("bool", "int", "str") and len(e) == 2:
+            return sexpr_py(e[1])
+        if h == "flt":
+            return {"$float": str(e[1])}
+        if h == "ref":
+            return {"$ref": sexpr_py(e[1])}
+        if h == "as" and len(e) == 3 and e[1] == "seq.empty":
+            return []
+        if h == "seq.unit":
+            return [sexpr_py(e[1])]
+        if h == "seq.++":
+            out = []
+            for x in e[1:]:
+                v = sexpr_py(x)
+                out.extend(v if isinstance(v, list) else [v])
+            return out
+    return {"$term": str(e)[:200]}
+
+
+# ------------------------------------------------------------------ cvc5
+
+
+def cvc5_run(smt2: str, timeout_ms: int, value_terms=None):
+    """-> (status, values|None, seconds); values: {name: python value}"""
+    t0 = time.time()
+    text = smt2
+    if "(set-logic" not in text:
+        text = "(set-logic ALL)\n" + text
+    opts = [CVC5, "--strings-exp", "--lang", "smt2", f"--tlimit={timeout_ms}"]
+    if value_terms:
+        opts.append("--produce-models")
+        names = list(value_terms)
+        text += "\n(get-value (" + " ".join(value_terms[n] for n in names) + "))\n"
+    fd, path = tempfile.mkstemp(suffix=".smt2", dir=os.environ.get("VERIF_TMP") or None)
+    try:
+        with os.fdopen(fd, "w") as f:
+            f.write(text)
+        p = subprocess.run(opts + [path], capture_output=True, text=True, timeout=timeout_ms / 1000 + 10)
+        out = p.stdout.strip()
+        first = out.splitlines()[0].strip() if out else "unknown"
+        status = first if first in ("sat", "unsat") else "unknown"
+        values = None
+        if status == "sat" and value_terms:
+            rest = out[len(first) :].strip()
+            try:
+                parsed = parse_sexprs(rest)
+                pairs = parsed[0] if parsed else []
+                values = {}
+                for n, pair in zip(names, pairs):
+                    values[n] = sexpr_py(pair[1])
+            except Exception:
+                values = {"$raw": rest[:2000]}
+    except Exception:
+        status, values = "unknown", None
+    finally:
+        try:
+            os.unlink(path)
+        except OSError:
+            pass
+    dt = time.time() - t0
+    STATS["cvc5"] += 1
+    STATS["cvc5_time"] += dt
+    return status, values, dt
+
 
 def cvc5_check(smt2: str, timeout_ms: int):
+    s, _v, dt = cvc5_run(smt2, timeout_ms)
+    return s, dt
+
+
+# ------------------------------------------------------------------ combined
+
+
+def _free_consts(t):
+    out = set()
+    seen = set()
+    stack = [t]
+    while stack:
+        x = stack.pop()
+        if x.get_id() in seen:
+            continue
+        seen.add(x.get_id())
+        if z3.is_const(x) and x.decl().kind() == z3.Z3_OP_UNINTERPRETED:
+            out.add(x.decl().name() if re.fullmatch(r"[A-Za-z_][A-Za-z0-9_.$!]*", x.decl().name()) else "|" + x.decl().name() + "|")
+        elif z3.is_app(x):
+            stack.extend(x.children())
+    return out
+
+
+
+def check_sat(assertions, z3_ms=1500, cvc5_ms=8000, value_terms=None, want_model=False):
+    """-> (status in sat|unsat|unknown, model (z3 ModelRef | dict | None), backend, seconds, smt2)"""
     t0 = time.time()
-    # z3 prints (check-sat) at the end already
-    text = "(set-logic ALL)\n" + smt2
-    with tempfile.NamedTemporaryFile("w", suffix=".smt2", delete=False, dir=os.environ.get("VERIF_SCRATCH_FILES", None)) as fd:
-        fd.write(text)
-        path = fd.name
-    try:
-        p = subprocess.run(
-            ["/usr/bin/cvc5", "--strings-exp", "--lang", "smt2", f"--tlimit={timeout_ms}", path],
-            capture_output=True, text=True, timeout=timeout_ms / 1000 + 5,
-        )
-        out = p.stdout.strip().splitlines()
-        r = out[0] if out else "unknown"
-        if r not in ("sat", "unsat"):
-            r = "unknown"
-    except Exception:
-        r = "unknown"
-    finally:
-        os.unlink(path)
-    return r, time.time() - t0
+    s = z3.Solver()
+    s.set("timeout", z3_ms)
+    s.add(*assertions)
+    r = s.check()
+    dt = time.time() - t0
+    STATS["z3"] += 1
+    STATS["z3_time"] += dt
+    if r == z3.unsat:
+        return "unsat", None, "z3", dt, None
+    if r == z3.sat:
+        return "sat", (s.model() if want_model else None), "z3", dt, (s.to_smt2() if want_model else None)
+    smt2 = s.to_smt2()
+    vt = None
+    if want_model and value_terms:
+        declared = set(re.findall(r"\(declare-fun (\S+|\|[^|]*\|) ", smt2))
+        vt = {}
+        for n, t in value_terms.items():
+            consts = _free_consts(t)
+            if all(c in declared for c in consts):
+                vt[n] = t.sexpr()
+    st, values, dt2 = cvc5_run(smt2, cvc5_ms, vt)
+    if st == "unknown":
+        STATS["unknown"] += 1
+        return "unknown", None, "z3+cvc5", dt + dt2, smt2
+    return st, values, "cvc5", dt + dt2, smt2
